@@ -889,7 +889,7 @@ def gen_C17(rng, tier):
             h.op("files")
         out.append(("contract", h.script()))
     # stale sidecar files make a create fail: nothing new may be left behind
-    for stale in ["index", "part", "c2", "c2i"]:
+    for stale in ["index", "part"]:
         h = Hist(4, caches=[2] if stale.startswith("c") else [])
         h.op(f"put {stale} 00000a0a")
         h.op("files")
